@@ -91,6 +91,39 @@ def run(repo, rep, tier):
                                         'changes the repository')
     if r1.sites < 2:
         raise AnalysisError('InMemoryObjectStore: writes to _data not found')
+    # R1b: a NEW key is owned by the store (the caller keeps the name object
+    # it passed - CreateInstance returns it to the client); assigning to an
+    # existing key keeps the dict's own key object
+    for m in st.methods.values():
+        facts = stmt_facts(m.node)
+        for n, (fs, _) in facts.items():
+            if not isinstance(n, ast.Assign):
+                continue
+            for t in n.targets:
+                if not (isinstance(t, ast.Subscript) and
+                        dotted(t.value) == 'self._data'):
+                    continue
+                r1.sites += 1
+                key = t.slice
+                kname = norm(key)
+                existing = any(
+                    (not pol and norm(c) == '%s not in self._data' % kname) or
+                    (pol and norm(c) == '%s in self._data' % kname)
+                    for c, pol in fs)
+                fresh = is_deepcopy(key)
+                ok = existing or fresh
+                r1.ob(ok, m.qualname + ':key',
+                      {'method': m.qualname, 'key': kname,
+                       'key_exists_already': existing, 'key_copied': fresh})
+                if not ok:
+                    rep.finding(r1, m.qualname, 'self._data[%s]' % kname,
+                                'key-not-copied', STORE, n.lineno,
+                                'a new entry is keyed by the caller\'s name '
+                                'object: CreateInstance returns that same '
+                                'path to the client, and changing it '
+                                'afterwards changes the key inside the '
+                                'repository (stale hash: the instance can no '
+                                'longer be found)')
     # ---- R2 ---------------------------------------------------------------
     for m in st.methods.values():
         facts = stmt_facts(m.node)
@@ -138,6 +171,98 @@ def run(repo, rep, tier):
         if not ok:
             rep.finding(r2, m.qualname, 'copy=%s' % norm(d), 'default',
                         STORE, m.node.lineno, 'copy does not default to True')
+    # R2b: names from iter_names() are only middle-deep copies
+    # (CIMInstanceName.copy() shares reference-typed key values with the
+    # store's key): they must not be handed to the client
+    shallow_out = any(
+        isinstance(n, ast.Expr) and isinstance(n.value, ast.Yield) and
+        isinstance(n.value.value, ast.Call) and
+        isinstance(n.value.value.func, ast.Attribute) and
+        n.value.value.func.attr == 'copy'
+        for n in ast.walk(st.methods['iter_names'].node)) \
+        if 'iter_names' in st.methods else False
+    if 'iter_names' not in st.methods:
+        raise AnalysisError('InMemoryObjectStore.iter_names vanished')
+    nn = 0
+    for path in MOCK_FILES:
+        for f in repo.module(path).all_funcs():
+            mids = {}
+            for n in ast.walk(f.node):
+                it = tgt = None
+                if isinstance(n, (ast.For, ast.comprehension)):
+                    it, tgt = n.iter, n.target
+                if it is None or not (isinstance(it, ast.Call) and
+                                      isinstance(it.func, ast.Attribute) and
+                                      it.func.attr == 'iter_names'):
+                    continue
+                recv = norm(it.func.value)
+                if 'inst' not in recv.lower():
+                    continue        # class / qualifier stores: str names
+                if isinstance(tgt, ast.Name):
+                    mids[tgt.id] = n
+            if not mids:
+                continue
+            nn += 1
+            r2.sites += 1
+            r2.functions.add(f.fq)
+
+            def tainted(e, mids=mids):
+                if is_deepcopy(e):
+                    return False
+                if isinstance(e, ast.Name):
+                    return e.id in mids
+                if isinstance(e, ast.Call) and \
+                        isinstance(e.func, ast.Attribute) and \
+                        e.func.attr == 'copy':
+                    return tainted(e.func.value)
+                if isinstance(e, (ast.ListComp, ast.GeneratorExp,
+                                  ast.SetComp)):
+                    return tainted(e.elt)
+                if isinstance(e, (ast.List, ast.Tuple)):
+                    return any(tainted(x) for x in e.elts)
+                return False
+            # propagate through simple assignments / appends
+            changed = True
+            while changed:
+                changed = False
+                for n in ast.walk(f.node):
+                    if isinstance(n, ast.Assign) and tainted(n.value):
+                        for t in n.targets:
+                            if isinstance(t, ast.Name) and t.id not in mids:
+                                mids[t.id] = n
+                                changed = True
+                    if isinstance(n, ast.Call) and \
+                            isinstance(n.func, ast.Attribute) and \
+                            n.func.attr in ('append', 'extend') and n.args \
+                            and tainted(n.args[0]) and \
+                            isinstance(n.func.value, ast.Name) and \
+                            n.func.value.id not in mids:
+                        mids[n.func.value.id] = n
+                        changed = True
+            for n in walk_no_nested(f.node):
+                v = None
+                if isinstance(n, ast.Return):
+                    v = n.value
+                elif isinstance(n, ast.Expr) and \
+                        isinstance(n.value, (ast.Yield, ast.YieldFrom)):
+                    v = n.value.value
+                if v is None:
+                    continue
+                ok = not (shallow_out and tainted(v))
+                r2.ob(ok, '%s|%s' % (f.qualname, norm(n, 60)),
+                      {'function': f.qualname, 'returns': norm(n, 80),
+                       'iter_names_is_middle_deep': shallow_out})
+                if not ok:
+                    rep.finding(r2, f.qualname, norm(n, 80),
+                                'shallow-name-returned', path, n.lineno,
+                                'instance names from iter_names() are '
+                                'name.copy() - a middle-deep copy that shares '
+                                'reference-typed key values with the key '
+                                'object inside the repository; returning '
+                                'them lets the client change a stored key '
+                                '(deepcopy needed)')
+    r2.notes.append('functions iterating iter_names() of an instance store: '
+                    '%d' % nn)
     # ---- R3 ---------------------------------------------------------------
     passthrough = {}      # function name -> param index of `copy`
     for path in MOCK_FILES:
